@@ -29,6 +29,9 @@ CHECKS["C07"] = dict(cat="translation_validation", tech="symbolic execution of t
 CHECKS["C06"] = dict(cat="translation_validation", tech="symbolic execution of the traced IR of jit / vmap / checkpointed / repeated simulate calls; DAG equality (structural, z3 fallback); concrete side-checks for table immutability",
    text="Program pairs (jitted vs plain, each vmapped row vs the unbatched program on that row's symbols, every checkpoint layout vs plain, IR traced after repeated eager/jit/vmap/grad calls vs IR of a fresh module) are compared node by node for all symbolic trainables, data_set values and stimulus amplitudes. Table immutability and bit-identical repetition are concrete side-checks.",
    note="XLA trusted to implement the IR; vmap with jax.sparse is refused by JAX itself (counted as refusal); exact real arithmetic", ref="6 C06")
+CHECKS["C08"] = dict(cat="translation_validation", tech="symbolic execution of the traced integrate IR with one symbol per table entry and per input sample: symbol identity for recordings/clamps, variable support for timing, DAG equality (congruence descent + z3) for additivity, t_max and data-vs-static",
+   text="The solver side is used as an exact dependency tracker: each recording row must be the requested symbol (column 0) and the manual-stepping trajectory at the harness's own coordinate (columns k); stimulus timing is decided on variable support, additivity/t_max/data-vs-static and clamps by DAG equality for all symbolic values. Recording plans are shuffled and include two synapse types created in interleaved order.",
+   note="oracle coordinates come from the harness's own bookkeeping; spsolve as uninterpreted function with congruence; exact real arithmetic", ref="6 C08")
 NA = {}
 checks = []
 for pid, c in CHECKS.items():
